@@ -62,7 +62,7 @@ def key_of(row, off=0):
         return "ecpIsOnA:%s" % cls
     if op == "smooth" and row.get("hang") and G.le(row.get("a", [0])) == 0:
         return "priIsSmooth:a=0:hang"
-    if op == "nextPrime" and row.get("n", 0) > 1 and row.get("base", 0) > 0 and G.le(row.get("a", [0])) < 10000:
+    if op == "nextPrime" and len(row.get("a", [])) > 8 and row.get("base", 0) > 0 and G.le(row.get("a", [0])) < 10000:
         return "priNextPrime:leading-zero-words:factor-base-prime-skipped"
     if op == "stb99SeedVal" and cls.startswith("di0=") and row.get("rc") == 0:
         return "stb99SeedVal:di0>7l/8-r:accepted"
@@ -70,11 +70,11 @@ def key_of(row, off=0):
         return "stb99SeedVal:ri-chain:5y/4<x<=5y/4+4:rejected"
     if op in ("smooth", "sieved"):
         a = G.le(row.get("a", [0]))
-        return "priIs%s:a=%s:n=%d:bc=%d%s" % (op.capitalize(), a if a < 1000 else "big", row.get("n", 0), row.get("base", 0), ":hang" if row.get("hang") else "")
+        return "priIs%s:a=%s:octets=%d:bc=%d%s" % (op.capitalize(), a if a < 1000 else "big", len(row.get("a", [])), row.get("base", 0), ":hang" if row.get("hang") else "")
     if op == "nextPrime":
-        return "%s:%s:n=%d:bc=%d" % (row.get("f", "priNextPrime"), cls, row.get("n", 0), row.get("base", 0))
+        return "%s:%s:octets=%d:bc=%d" % (row.get("f", "priNextPrimeW" if row.get("w") else "priNextPrime"), cls, len(row.get("a", [])), row.get("base", 0))
     if op == "isPrime":
-        return "%s:%s" % ("priIsPrimeW" if row.get("n") == 0 else "priIsPrime", cls)
+        return "%s:%s" % ("priIsPrimeW" if row.get("w") else "priIsPrime", cls)
     return "%s:%s" % (op, cls)
 
 
